@@ -1,5 +1,5 @@
 From Coq Require Import ExtrOcamlBasic.
-From HV Require Import Base.Res Base.Str Base.StrOps Model.AttrCodec Model.WikiCodec Model.Traversal Model.TsvCodec.
+From HV Require Import Base.Res Base.Str Base.StrOps Model.AttrCodec Model.WikiCodec Model.Traversal Model.TsvCodec Model.TsvFiles.
 Extraction Language OCaml.
 Extraction "../ocaml/build/c05_model.ml"
   force_types parse_attribute_string format_tag_attributes attribute_disallowed_df
@@ -8,4 +8,5 @@ Extraction "../ocaml/build/c05_model.ml"
   write_tag_line write_entry_line read_tag_line read_entry_line
   name_ok desc_ok wiki_attr_ok row_free_of_reserved
   tsv_write_tag_row tsv_write_entry_row tsv_read_row tsv_desc_ok xml_read_desc desc_text_ok
+  df_suffixes files_written output_tables
   process_schema.
